@@ -7,9 +7,9 @@ def main():
     c = Check("C04", a.tier, a.seed)
     if a.replay:
         r = json.load(open(a.replay)); c.seed, c.tier = r["seed"], r["tier"]
-    ok_mk, log = c.make(["Props/C04.vo", "Model/Plonk.vo"])
-    thms = theorems_of("Props/C04.v")
-    assumptions = c.audit("Props.C04", thms) if ok_mk else {}
+    ok_mk, log = c.make(["Model/Plonk.vo"] + props("C04")[2])
+    thms = theorems_of(*props("C04")[0])
+    assumptions = c.audit(props("C04")[1], thms) if ok_mk else {}
     binary = c.build_harness("release")
     casefile = os.path.join(c.work, "cases.txt")
     n, dist, fails, samples, info = 0, {}, [], [], []
